@@ -14,14 +14,40 @@ MANIFEST = {
             "Confirmables frees one slot each), an ICMP error read from the socket (icmp_changes_only_output: the in-flight CONs stay "
             "counted), keepalive (ping loop of coap_io_prepare_io_lkd, coap_session_send_ping_lkd, last_rx_tx/last_ping_mid, the clamp "
             "of the retransmission delay, the is_ping_rst case of the RST branch: a ping takes and frees a slot like any CON); "
-            "x_agrees_with_base.  M is tied to the compiled code on every run by exact trace equality on the virtual-time simulation "
+            "x_agrees_with_base.  (Round 4) a piggy-backed response (ACK carrying a response and a token: ACK branch of coap_dispatch + "
+            "handle_response incl. the last_ack_mid duplicate check) is an event of MsgLayerX: it concludes the message whose id it "
+            "carries and no other (piggybacked_ack_concludes_only_its_own), and when its id is no longer in the send queue (the "
+            "network's duplicate, a late copy) it changes nothing but the output whatever token it carries "
+            "(unmatched_piggybacked_ack_changes_only_output); 'in flight' in the property's sense - sent and neither acknowledged, reset "
+            "nor given up - is made formal by the LEDGER of a message (Lemmas/MsgLedger.lean: its nodes in the send queue + in its "
+            "session's delay queue + its TOO_MANY_RETRIES reports) and in_flight_until_concluded(_run): for EVERY event of the extended "
+            "model that does not conclude that message (an ACK / RST / invalid-code reply / piggy-backed response with its id, a "
+            "separate response with the token of a message with that id, the failure of its session) the ledger does not decrease - a "
+            "Confirmable in flight stays in the send queue, counted by con_active, until it is concluded or reported as given up, so "
+            "its slot is never handed on silently; DTLS sessions are sessions of MsgLayerX (the guards "
+            "COAP_PROTO_NOT_RELIABLE of every con_active update are open for both datagram transports; the DTLS branch of "
+            "coap_session_disconnected_lkd leaves state NONE): con_active_eq_inflight_le_nstart_dtls, no_idle_hold_dtls, failure_dtls "
+            "for every mix of UDP and DTLS sessions and every event sequence.  M is tied to the compiled code on every run by exact trace equality on the virtual-time simulation "
             "harness (first-transmission order, con_active / delay-queue / send-queue after every event, NACK log) over bursts of 1..20 "
             "CON/NON, NSTART 1..4, lost/duplicated/late ACK and RST, shared tokens + separate responses, ICMP errors, keepalive 1..10 s "
-            "with pong / ACK / loss; the property's clauses are also judged on the implementation's trace alone.",
+            "with pong / ACK / loss, piggy-backed responses duplicated / late / stray, and every kind of scenario on DTLS sessions "
+            "(session->proto == COAP_PROTO_DTLS with libcoap's DTLS layer table; the record layer is the identity) next to UDP "
+            "sessions; the property's clauses are also judged on the implementation's trace alone, incl. (round 4) 'in flight' as the "
+            "property defines it - sent and neither acknowledged, reset nor given up, kept as a ledger from the transmissions and the "
+            "peer's replies without looking at the library's queues - never exceeding NSTART.  Sessions with the REAL GnuTLS: `dtls` "
+            "lines run on C19's harness and model (DTLS client session + DTLS server endpoint in one process, real handshake and "
+            "record layer, virtual clock, scripted wire) with a burst of 1..6 CON/NON submitted at the moment the session is "
+            "ESTABLISHED, losses / duplicates among the application records: the same NSTART clauses and ledger on the client "
+            "session's counters after every libcoap entry point, tied segment by segment to Model/TlsGate.lean (tie + observation: "
+            "no C08 theorem ranges over that model).",
     "note": "Trusted: Lean kernel (+ propext, Classical.choice, Quot.sound), harness/sim_core.h + msg.c, Driver/Msg.lean, generators/oracles, "
             "the hand transcription M (checked on the cases run only).  NSTART <= 255 (con_active is a uint8_t).  'Not established' is "
             "produced on UDP sessions by setting session->state as a DTLS session would.  The double NACK of the first IN-FLIGHT message "
-            "on disconnect (DESIGN §5 row 22) is modelled as is: the property's failure clause concerns held messages.  Not modelled: the "
+            "on disconnect (DESIGN §5 row 22) is modelled as is: the property's failure clause concerns held messages.  DTLS sessions of "
+            "the simulation harness have the identity as record layer (coap_dtls_send / coap_dtls_receive / coap_dtls_free_session / "
+            "coap_dtls_get_timeout replaced at link time): libcoap's own code runs as on an established DTLS session, GnuTLS does not "
+            "(sessions with the real GnuTLS: C19).  The python in-flight ledger is the trace-side reading of the property (observation "
+            "on the runs made); its model-side counterpart is the theorem in_flight_until_concluded over M.  Not modelled: the "
             "RFC 8974 extended-token probe (the other library-generated Confirmable whose RST takes the is_ext_token_rst path), keepalive "
             "longer than ACK_TIMEOUT is not generated (the wait returned after a ping ignores the ping's own deadline: C06 territory).",
     "design_ref": "DESIGN.md §4 C08, design/C08.md",
@@ -36,35 +62,178 @@ REQUIRED_THEOREMS = ["wf_step", "con_active_eq_inflight", "inflight_le_nstart", 
                      "held_fifo_exactly_once_x", "held_fifo_exactly_once_x_run", "icmp_changes_only_output",
                      "x_agrees_with_base", "submitT_mid_is_submit",
                      # "later transmitted as earlier exchanges finish"
-                     "no_idle_hold", "no_idle_hold_x"]
+                     "no_idle_hold", "no_idle_hold_x",
+                     # round 4: piggy-backed responses, DTLS sessions
+                     "piggybacked_ack_concludes_only_its_own", "unmatched_piggybacked_ack_changes_only_output",
+                     "con_active_eq_inflight_le_nstart_dtls", "no_idle_hold_dtls", "failure_dtls",
+                     "in_flight_until_concluded", "in_flight_until_concluded_run"]
 RULE = ("scenario lines for harness/msg.c: bursts of 1..20 CON/NON on 1-3 UDP client sessions of one context, NSTART 1..4, "
         "scripted peer answering each transmission by ACK / RST / nothing, once or twice, after delays placed around the "
         "retransmission timers; stray and duplicated ACK/RST, NON with colliding ids, replies with invalid codes, "
         "cancel-by-token; sessions taken out of ESTABLISHED and brought up again, session failure; lines with the extended events: "
         "1..12 submissions sharing 1..3 tokens + separate (NON) responses carrying them, ICMP errors read from the socket, keepalive "
         "1..10 s (<= ACK_TIMEOUT) switched on/off with silent periods around the ping time and pong (RST) / ACK / loss as fates, and "
-        "mixtures; the corpus of minimal defect witnesses; non-trivial = distinct line on which at least one message was held in "
+        "mixtures; piggy-backed responses (ACK + 2.05 + token) as the peer's answer, delivered once or twice (duplicate / late copy "
+        "arriving while later messages that may share the token are in flight or after the request was given up) and as stray "
+        "events for in-flight / concluded / held / unknown ids; a third of all sessions are DTLS sessions (7th field of the session "
+        "word = 2), every burst size x NSTART also on a DTLS session; `dtls` lines (harness/dtls.c, real GnuTLS on both sides): 0..3 "
+        "requests queued before the handshake + a burst b= of 1..6 CON/NON at the moment the client session is ESTABLISHED, default "
+        "NSTART, five working credential configurations, per-datagram loss / duplication after (or during) the handshake; the corpus "
+        "of minimal defect witnesses; non-trivial = distinct line on which at least one message was held in "
         "the delay queue")
 TRUSTED_BASE = ["Lean 4.33 kernel; axioms allowed: propext, Classical.choice, Quot.sound (audited per theorem each run)",
                 "harness/sim_core.h + harness/msg.c, the scenario interpreter in Driver/Msg.lean, generators and oracles in vlib/msglib.py",
                 "M (Model/MsgLayer.lean + Model/MsgLayerX.lean over Model/SendQueue.lean) is a hand transcription of coap_send_pdu's gate, "
                 "coap_session_delay_pdu, coap_session_connected, coap_session_disconnected_lkd (both reasons), coap_cancel_all_messages, "
-                "the keepalive loop, coap_session_send_ping_lkd, the RST branch incl. is_ping_rst and every con_active update; "
+                "the keepalive loop, coap_session_send_ping_lkd, the RST branch incl. is_ping_rst, the ACK branch + handle_response for "
+                "a piggy-backed response, the UDP / DTLS branch of coap_session_disconnected_lkd and every con_active update; "
                 "checked against the compiled code by exact trace equality incl. con_active and queue contents after every event",
                 "last_rx_tx is stamped in M after each step for every session that transmitted in it (the C code stamps it inside "
                 "coap_netif_dgrm_write); the index arithmetic by which M follows the pointer p of coap_cancel_all_messages across "
-                "insertions (cancelWalk) is an emulation of pointer identity, tied to the code on the cases run"]
-ASSUMPTIONS = ["NSTART <= 255 (con_active is a uint8_t)", "UDP client sessions; 'not established' is produced by setting "
+                "insertions (cancelWalk) is an emulation of pointer identity, tied to the code on the cases run",
+                "DTLS sessions of harness/msg.c: a UDP client session turned into a DTLS session (proto, coap_layers_coap[COAP_PROTO_DTLS], "
+                "non-NULL session->tls, coap_session_connected()) whose record layer is the identity: --wrap of coap_dtls_send (-> "
+                "lfunc[COAP_LAYER_TLS].l_write, as GnuTLS' push callback), coap_dtls_receive (-> coap_handle_dgram, as after "
+                "gnutls_record_recv), coap_dtls_free_session, coap_dtls_get_timeout; GnuTLS itself is not exercised here (C19 does)",
+                "`dtls` lines: everything C19 trusts for its DTLS run (harness/dtls.c + dtls_pipe.py, the wrapped GnuTLS entry points as "
+                "oracle, Model/TlsGate.lean + Driver/TlsGate.lean as M) and props/C08.oracle_dtls",
+                "vlib/msglib.InFlightLedger: the property's definition of 'in flight' replayed on the implementation's trace (scripted "
+                "peer re-computed from the fates; errs on the side of silence)"]
+ASSUMPTIONS = ["NSTART <= 255 (con_active is a uint8_t)", "UDP and DTLS client sessions (DTLS: identity record layer, see TRUSTED_BASE); "
+               "a separate response carrying a request's token counts as its acknowledgement (RFC 7252 5.2.2, D16); "
+               "'not established' is produced by setting "
                "session->state as a (D)TLS handshake would, 'comes up' by coap_session_connected(), 'fails' by "
                "coap_session_disconnected(NOT_DELIVERABLE); an ICMP error is a real read of -2 from the (wrapped) socket; "
                "keepalive <= ACK_TIMEOUT; message ids chosen by the application stay clear of the library's ping ids",
                "compiled Lean definitions agree with the kernel's reading of them"]
 SPEC_DECISIONS = ["D14 an outcome NACK carries the sent PDU", "D15 a NON submitted before the session is established keeps its place "
-                  "in the submission order; 'not delayed by NSTART' is about established sessions"]
+                  "in the submission order; 'not delayed by NSTART' is about established sessions",
+                  "D16 'acknowledged' includes: a separate (CON/NON) response carrying the request's token has arrived (RFC 7252 5.2.2: "
+                  "the client stops retransmitting; the peer has the request) - an ACK for ANOTHER message id acknowledges nothing, "
+                  "whatever token it carries"]
 
 
 def harness(ctx):
     return L.harness(ctx)
+
+
+# ---------------------------------------------------------------- DTLS sessions with the REAL GnuTLS (borrowed from C19)
+# `dtls` lines run on C19's harness (harness/dtls.c: a DTLS client session and a DTLS server endpoint in one process, real GnuTLS
+# handshake and record layer, virtual clock, scripted wire) with C19's model M (Model/TlsGate.lean, replayed per segment by
+# harness/dtls_pipe.py) - here with `b=`: a burst the application submits at the first moment the session is ESTABLISHED, the
+# peer being a real libcoap server that answers every request with a piggy-backed response, datagrams lost / duplicated after the
+# handshake.  Judged: the NSTART clauses on the client session's own counters after every libcoap entry point, the in-flight
+# ledger (sent and neither acknowledged, reset nor given up) from the PDUs handed to / read from the TLS library, and the tie to
+# C19's M segment by segment.  No C08 theorem ranges over Model/TlsGate.lean: this part is tie + observation.
+def _p19():
+    import props.C19 as P19
+    return P19
+
+
+HARNESS_FOR_OP = {"dtls": lambda ctx: _p19().harness(ctx)}
+RUN_KW_FOR_OP = {"dtls": {"timeout": 900}}
+DTLS_NSTART = 1          # the default NSTART (harness/dtls.c does not change it; Model/TlsGate.lean: NSTART = 1)
+DTLS_CREDS = [[], ["ck=00112233445566778899aabbccddeeff", "sk=00112233445566778899aabbccddeeff"], ["st=6964:6b6579"],
+              ["sni=686f7374", "ss=686f7374:68:6b6579"], ["sh=68696e74", "ih=68696e74"]]
+
+
+def gen_dtls(rng, n):
+    out = []
+    for q in ("", "C", "CC", "N"):
+        for b in ("C", "CC", "CCC", "CNC", "NCC", "CCN", "CCCCCC", "NNCCNC"):
+            out.append("dtls " + " ".join(([("q=" + q)] if q else []) + ["b=" + b]))
+    for _ in range(n):
+        w = list(rng.choice(DTLS_CREDS)) if rng.random() < 0.3 else []
+        q = rng.choice(["", "", "C", "N", "CC", "CN", "CCC"])
+        if q:
+            w.append("q=" + q)
+        w.append("b=" + "".join("C" if rng.random() < 0.8 else "N" for _ in range(rng.randint(1, 6))))
+        c = rng.random()
+        if c < 0.55:
+            # a loss-free handshake is 13 datagrams: losses and duplicates among the application records that follow
+            w.append("f=" + "d" * rng.choice([13, 13, 13, 11, 12]) + "".join(rng.choice("ddddxx2") for _ in range(rng.randint(1, 24))))
+        elif c < 0.7:
+            w.append("f=" + "".join(rng.choice("dddddddx2") for _ in range(rng.randint(5, 40))))
+        rng.shuffle(w)
+        out.append("dtls " + " ".join(w))
+    return out
+
+
+def oracle_dtls(inp, isegs):
+    """the NSTART clauses and the in-flight ledger on the client session of a `dtls` line (trace of I alone)"""
+    P = _p19()
+    ns = DTLS_NSTART
+    open_, first_tx, seen = {}, [], set()
+    for k, sg in enumerate(P.parse_segments(isegs)):
+        if sg["who"] != "c":
+            continue
+        where = "segment %d (c:%s)" % (k, sg["ev"])
+        for o in sg["orc"]:
+            if o.startswith("rec=data:"):
+                v = o.split(":", 1)[1].split(".")
+                if len(v) >= 4:
+                    kind, code, mid, tok = v[0], int(v[1]), v[2], v[3]
+                    if kind in "AR":
+                        open_.pop(mid, None)                  # an ACK / RST with ITS message id
+                    elif code >= 64:
+                        for m in [m for m, t in open_.items() if t == tok]:
+                            del open_[m]                      # a separate response with ITS token
+        for o in sg["out"]:
+            if o.startswith("tx:C."):
+                v = o[3:].split(".")
+                mid, tok = v[2], v[3]
+                if v[1] == "1" and (mid, tok) not in seen:
+                    seen.add((mid, tok))
+                    first_tx.append(tok)
+                    open_[mid] = tok
+            elif o.startswith("nack:"):
+                tok = o.split(":")[2]
+                for m in [m for m, t in open_.items() if t == tok]:
+                    del open_[m]
+        st = dict(kv.split("=", 1) for kv in sg["st"].split(",")) if sg["st"] != "gone" else None
+        if st is None or st.get("st") != "4":
+            open_.clear()
+            continue
+        ca, inf, dq = int(st["ca"]), int(st["if"]), int(st["dq"])
+        if ca != inf:
+            return "%s: con_active of the DTLS session is %d but %d Confirmables are waiting for their ACK" % (where, ca, inf)
+        if inf > ns:
+            return "%s: %d Confirmables in flight on the DTLS session, NSTART is %d" % (where, inf, ns)
+        if len(open_) > ns:
+            return ("%s: %d Confirmables of the DTLS session have been sent and are neither acknowledged, reset nor given up (tokens "
+                    "%s), NSTART is %d" % (where, len(open_), sorted(open_.values()), ns))
+        if dq > 0 and inf < ns:
+            return "%s: the established DTLS session holds %d message(s) although only %d of NSTART=%d Confirmables are in flight" % (
+                where, dq, inf, ns)
+    if first_tx != sorted(first_tx):
+        return "the Confirmables of the DTLS session were first transmitted in the order %s, not in submission order" % first_tx
+    return None
+
+
+def judge_dtls(ctx, c):
+    P = _p19()
+    i, m = c["impl"], c["model"]
+    if i is None or i.startswith("crash"):
+        return ("spec", "the real code aborted on this scenario (sanitizer report / crash): %s" % i)
+    if i == "bad-op" or m == "bad-op":
+        return None if i == m else ("tie", "bad-op on one side only: impl %s model %s" % (i[:40], (m or "")[:40]))
+    if " | wire " not in i:
+        return ("tie", "harness could not set the scenario up: %s" % i[:100])
+    try:
+        isegs, wire, hs, mseg, cred = P.split_impl(i)
+        why = oracle_dtls(c["input"], isegs)
+    except Exception as e:
+        return ("tie", "unreadable harness output (%s): %s" % (e, i[:200]))
+    if why:
+        return ("spec", why)
+    if isegs != mseg:
+        a, b = isegs.split(" ; "), mseg.split(" ; ")
+        for k in range(max(len(a), len(b))):
+            x = a[k] if k < len(a) else "<nothing>"
+            y = b[k] if k < len(b) else "<nothing>"
+            if x != y:
+                return ("tie", "segment %d: implementation `%s` but model M (TlsGate) `%s`" % (k, x[:200], y[:200]))
+    return None
 
 
 def bursts(rng):
@@ -72,11 +241,22 @@ def bursts(rng):
     out = []
     for nstart in (1, 2, 3, 4):
         for n in (1, 2, 3, 5, 8, 13, 20):
-            for _ in range(6):
+            for j in range(6):
                 p = L.rand_params(rng)
                 evs = ["s:0:%s:%d:%d" % ("c" if rng.random() < 0.8 else "n", 200 + k, rng.randrange(256)) for k in range(n)]
                 fates = [L.gen_fate(rng, []) for _ in range(rng.randint(0, 4 * n))]
-                out.append("msg %s %s %s g:3000" % (L.sess_word(p, nstart), ",".join(fates) if fates else "-", " ".join(evs)))
+                # every burst size x NSTART on both datagram transports: j = 0, 1 on a DTLS session (sess word ….2)
+                out.append("msg %s %s %s g:3000" % (L.sess_word(p, nstart, 2 if j < 2 else 1), ",".join(fates) if fates else "-", " ".join(evs)))
+    # bursts of Confirmables that SHARE a token (a strictly serial client may do that: RFC 7252 5.3.1), every one answered by a
+    # piggy-backed response that the network duplicates (the copy arrives while a later message of the burst is in flight)
+    for nstart in (1, 2, 3):
+        for n in (2, 3, 5, 8):
+            for j in range(3):
+                p = L.rand_params(rng)
+                tok = rng.choice([0, 7, 66, 65535])
+                evs = ["S:0:c:%d:%d:%d" % (200 + k, rng.randrange(256), tok) for k in range(n)]
+                fates = [rng.choice(["P%d+%d" % (d, d + e) for d in (0, 1, 50) for e in (0, 1, 400, 1000)] + ["p0", "a0", "d"]) for _ in range(2 * n)]
+                out.append("msg %s %s %s g:3000" % (L.sess_word(p, nstart, 2 if j == 0 else 1), ",".join(fates), " ".join(evs)))
     return out
 
 
@@ -89,10 +269,14 @@ def generate(ctx, escalate=False):
     out += [L.gen_scenario(rng, "c08") for _ in range(n)]
     # extended events: shared tokens cancelled by one separate response, ICMP errors, keepalive pings (and mixtures)
     out += [L.gen_scenario_x(rng) for _ in range(n // 2)]
+    # DTLS sessions with the real GnuTLS: bursts on the session right after the handshake (C19's harness and model)
+    out += gen_dtls(rng, 6000 if ctx.thorough() else 260)
     return out
 
 
 def judge(ctx, c):
+    if c["input"].startswith("dtls "):
+        return judge_dtls(ctx, c)
     if not c["input"].startswith("msg "):
         return None if c["impl"] == c["model"] else ("tie", "implementation `%s`, model `%s`" % (c["impl"], c["model"]))
     return L.judge_msg(ctx, c, L.oracle_c08)
@@ -104,11 +288,15 @@ def known(ctx, c):
 
 def nontrivial(c):
     import re
+    if c["input"].startswith("dtls "):
+        return bool(re.search(r"st=4,tls=1,dq=[1-9]", c["impl"] or ""))
     return bool(re.search(r"\[[\d,]+;[\d,]*[1-9]", c["impl"] or ""))
 
 
 def classify(c):
     w = c["input"].split()
+    if w[0] == "dtls":
+        return "dtls-gnutls" + (":loss" if any(x.startswith("f=") for x in w) else "")
     if w[0] != "msg":
         return w[0]
     k = "nstart" + "/".join(sorted({p.split(".")[5] for p in w[1].split(",")}))
@@ -122,6 +310,10 @@ def classify(c):
         k += ":icmp"
     if " k:" in c["input"]:
         k += ":ka"
+    if " p:" in c["input"] or any(f[:1] in "pP" for f in w[2].split(",")):
+        k += ":pig"
+    if any(p.count(".") == 6 and p.endswith(".2") for p in w[1].split(",")):
+        k += ":dtls"
     return k
 
 
@@ -130,6 +322,8 @@ def search(ctx, tie_breaks, proof):
     out = []
     for c in tie_breaks[:20]:
         w = c["input"].split()
+        if w[0] != "msg":
+            continue
         for _ in range(100):
             evs = list(w[3:])
             if len(evs) > 1 and rng.random() < 0.7:
@@ -137,9 +331,36 @@ def search(ctx, tie_breaks, proof):
             out.append(" ".join(w[:3] + evs))
     out += [L.gen_scenario(rng, "c08") for _ in range(3000)]
     out += [L.gen_scenario_x(rng) for _ in range(1500)]
+    out += gen_dtls(rng, 300)
     return out
+
+
+def shrink_dtls(ctx, case):
+    """drop configuration words, shorten the burst and the fate string while the implementation still contradicts the property"""
+    from vlib.runner import diff_side
+    import props.C08 as me
+    best = case
+    for _ in range(6):
+        w = best["input"].split()[1:]
+        cands = [w[:i] + w[i + 1:] for i in range(len(w))]
+        for i, x in enumerate(w):
+            if (x.startswith("f=") or x.startswith("b=") or x.startswith("q=")) and len(x) > 3:
+                cands.append(w[:i] + [x[:-1]] + w[i + 1:])
+        found = None
+        for cc in diff_side(ctx, me, ["dtls " + " ".join(t) for t in cands if t]):
+            v = judge(ctx, cc)
+            if v and v[0] == "spec" and len(cc["input"]) < len(best["input"]):
+                cc = dict(cc); cc["why"] = v[1]
+                found = cc
+                break
+        if not found:
+            break
+        best = found
+    return best
 
 
 def shrink(ctx, case):
     import props.C08 as me
+    if case["input"].startswith("dtls "):
+        return shrink_dtls(ctx, case)
     return L.shrink_msg(ctx, me, case, judge)
